@@ -486,6 +486,14 @@ func (f *c17Funding) violate(what, key string, c *c17PairCase) {
 	f.r.Violate(what, key, c)
 }
 
+// c17Ver decodes the version field of a pair case (version+1, 0 = current).
+func c17Ver(v uint32) int {
+	if v == 0 {
+		return int(order.VersionChannelType)
+	}
+	return int(v) - 1
+}
+
 func c17Nonce(s string) order.Nonce {
 	var n order.Nonce
 	b, _ := hex.DecodeString(s)
@@ -753,6 +761,20 @@ func (f *c17Funding) exec(c *c17PairCase) {
 	batchTaker := project(ask, askParams, bid.Nonce(), "projask "+c17FmtKit(&ask.Kit))
 	batchAsker := project(bid, bidParams, ask.Nonce(), "projbid "+c17FmtOrder(bid))
 	if batchTaker == nil || batchAsker == nil {
+		// "for every matched ask/bid pair": an honest, well-formed order
+		// (known channel type, valid keys, non-zero nonce; any order version,
+		// any lease duration) must reach the counterparty as submitted -
+		// otherwise one side derives nothing for the pair.
+		zero := strings.Repeat("00", 32)
+		if c.BadKey == "" && c.AskChanType <= 2 && c.BidChanType <= 2 && c.AskNonce != zero && c.BidNonce != zero {
+			who := "the bidder does not receive the ask"
+			if batchTaker != nil {
+				who = "the asker does not receive the bid"
+			}
+			f.violate(fmt.Sprintf("honest pair (ask version %d, bid version %d, lease %d): %s as submitted (refused / altered by "+
+				"SubmitOrder or ParseRPCBatch), so no funding parameters are derived for it", c17Ver(c.AskVersion),
+				c17Ver(c.BidVersion), c.Lease, who), "C17/projection", c)
+		}
 		return
 	}
 	mAsk := batchTaker.MatchedOrders[bid.Nonce()][0]
